@@ -761,15 +761,20 @@ def rw_closure_specs(toks, specs, rep, qual):
             else:
                 for (text, nth, retdecl, ens) in specs_g:
                     rep.append(("LOST", f"closure {text!r} #{nth} not found: contract not attached"))
-    for (k, retdecl, ens) in sorted(resolved, key=lambda x: -x[0]):
+    # all insertions are computed on the original token positions and applied from the back, so that a closure nested
+    # in the expression body of another one does not shift the outer closure's end
+    ins = []
+    for (k, retdecl, ens) in resolved:
         (a, close, bs, be, block) = cl[k]
         hdr = f" -> {retdecl} ensures {ens} "
         if block:
-            out[bs:bs] = [T("raw", hdr)]
+            ins.append((bs, k, hdr))
         else:
-            out[be:be] = [T("raw", " }")]
-            out[bs:bs] = [T("raw", hdr + "{ ")]
+            ins.append((be, k, " }"))
+            ins.append((bs, k, hdr + "{ "))
         rep.append(("R14", f"closure {k}: contract `{retdecl} ensures {ens}` attached (body unchanged)"))
+    for (pos, k, text) in sorted(ins, key=lambda x: (-x[0], x[1])):
+        out[pos:pos] = [T("raw", text)]
     return out
 
 
@@ -873,6 +878,7 @@ class Extract:
     locals_: list = field(default_factory=list)    # (alias, "stmt pattern with $", nth): the alias used in hints names the binder at `$`
     methodrenames: list = field(default_factory=list)  # R7: every `.old(` method call -> `.new(` (a wrapper trait method with the std contract)
     fallback: list = field(default_factory=list)   # text emitted instead when the item no longer exists
+    derive_proof: list = field(default_factory=list)  # proof body of the `derive` lemma
     tmpl_line: int = 0
     rename: str = ""
 
@@ -932,6 +938,16 @@ def parse_template(text):
         if mm:
             c = Clause(mm.group(1), mm.group(2), mm.group(3))
             cur.clauses.append(c); last = ("clause", c); i += 1; continue
+        # `derive LABEL: P` — a lemma over this function's contract: emitted after the function as a proof fn whose
+        # requires are ALL the function's requires/ensures (old(self) -> pre, final(self) -> post) and whose ensures is P
+        mm = re.match(r"^derive\s+([\w.\-]+)\s*:\s?(.*)$", body)
+        if mm:
+            c = Clause("derive", mm.group(1), mm.group(2))
+            cur.clauses.append(c); last = ("clause", c); i += 1; continue
+        mm = re.match(r"^derive_proof\s*:\s?(.*)$", body)
+        if mm:
+            ins = ["derive_proof", "", 1, mm.group(1)]
+            cur.derive_proof.append(ins); last = ("insert", ins); i += 1; continue
         mm = re.match(r"^loop\s+(\d+)\s+pre\s*:\s?(.*)$", body)
         if mm:
             c = Clause("looppre", "", mm.group(2), loop=int(mm.group(1)))
@@ -1199,7 +1215,7 @@ def build(template_text: str, repo: str, unit: str) -> Built:
         if part[0] == "text":
             continue
         exx = part[1]
-        for ins in exx.inserts + exx.entry + exx.exit_:
+        for ins in exx.inserts + exx.entry + exx.exit_ + exx.derive_proof:
             ins[3] = _mark_hint(ins[3])
         for c in exx.clauses:
             if c.kind in ("loopentry", "looppre", "loophead", "looptail", "loopreturns", "loopafter"):
@@ -1675,11 +1691,14 @@ def _build_fn(sf: SourceFile, item: Item, impl, ex: Extract, props, rep, unit, a
     if ex.ret:
         sig_text = _name_return(sig_text, ex.ret, qual)
     fn_clauses = [c for c in ex.clauses if c.loop == -1]
+    stub = a.get("mode") == "stub"
+    if stub:
+        # an importing unit sees the derived facts as part of the contract (they are proved from it in the home unit)
+        fn_clauses = fn_clauses + [Clause("ensures", c.label, c.text) for c in ex.clauses if c.kind == "derive"]
     spec = _render_fn_clauses(fn_clauses)
     hdr = sig_text + ("\n    " + where_txt if where_txt else "")
     body_text = text_of(body_toks)
     src_line = sf.line_of(item.start)
-    stub = a.get("mode") == "stub"
     if stub:
         body_text = "{ unimplemented!() }"
         rep.append(("STUB", f"contract imported from unit {a.get('from_unit')} (proved there, assumed here); body not included"))
@@ -1704,6 +1723,9 @@ def _build_fn(sf: SourceFile, item: Item, impl, ex: Extract, props, rep, unit, a
     if spec:
         lines.append(spec)
     lines.append(body_text)
+    derives = [c for c in ex.clauses if c.kind == "derive"]
+    if derives and not stub:
+        lines.append(_render_derive(sig_text, where_txt, ex, fn_clauses, derives, fnname, qual))
     if impl is not None:
         lines.append("}")
     meta = dict(unit=unit, fn=qual, src=f"{sf.rel}:{src_line}",
@@ -1808,6 +1830,81 @@ def _name_return(sig_text, name, qual):
             ty = text_of(toks[i + 2:]).strip()
             return f"{before}-> ({name}: {ty})"
     raise TemplateError(f"{qual}: `ret:` given but the function has no return type")
+
+
+def _split_params(ptxt):
+    toks = lex(ptxt)
+    parts, cur, depth = [], [], 0
+    for t in toks:
+        if t.kind == PUNCT and t.text in ("(", "[", "<", "{"):
+            depth += 1
+        elif t.kind == PUNCT and t.text in (")", "]", ">", "}"):
+            # `->` inside Fn(..) -> T: the `>` of `->` is not a closing bracket
+            if not (t.text == ">" and cur and cur[-1].text == "-"):
+                depth -= 1
+        if t.kind == PUNCT and t.text == "," and depth == 0:
+            parts.append(text_of(cur).strip()); cur = []
+        else:
+            cur.append(t)
+    if text_of(cur).strip():
+        parts.append(text_of(cur).strip())
+    return parts
+
+
+def _subst_self(txt, selfmode):
+    """contract text -> lemma text: old(self) -> pre, final(self) -> post, (for `&self` functions) self -> pre"""
+    txt = re.sub(r"\bold\s*\(\s*self\s*\)", "pre", txt)
+    txt = re.sub(r"\bfinal\s*\(\s*self\s*\)", "post", txt)
+    if selfmode == "ref":
+        txt = re.sub(r"(?<![\w.])self\b", "pre", txt)
+    return txt
+
+
+def _render_derive(sig_text, where_txt, ex, fn_clauses, derives, fnname, qual):
+    """the `derive` lemma: the property as a consequence of the function's (proved) contract alone"""
+    m = re.search(r"\bfn\s+\w+\s*(<[^(]*>)?\s*\(", sig_text)
+    if not m:
+        raise TemplateError(f"{qual}: derive: cannot parse the signature")
+    generics = m.group(1) or ""
+    toks = lex(sig_text[m.end() - 1:])
+    close = match_close(toks, 0)
+    ptxt = text_of(toks[1:close])
+    rest = text_of(toks[close + 1:]).strip()
+    params = []
+    selfmode = None
+    for prm in _split_params(ptxt):
+        pz = re.sub(r"\s+", " ", prm)
+        if re.match(r"^&\s*(\'\w+\s+)?mut self$", pz):
+            selfmode = "mut"; params += ["pre: &Self", "post: &Self"]
+        elif re.match(r"^&\s*(\'\w+\s+)?self$", pz):
+            selfmode = "ref"; params += ["pre: &Self"]
+        elif pz in ("self", "mut self"):
+            selfmode = "ref"; params += ["pre: Self"]
+        else:
+            params.append(re.sub(r"^mut\s+", "", prm))
+    mret = re.match(r"^->\s*\((\w+)\s*:\s*(.*)\)$", rest, re.S)
+    if mret:
+        params.append(f"{mret.group(1)}: {mret.group(2).strip()}")
+    elif rest.startswith("->"):
+        raise TemplateError(f"{qual}: derive needs `ret:` to name the result")
+    out = [f"/// derived from the contract of `{fnname}` above (its requires and ensures are the hypotheses; nothing of the body is used)",
+           f"pub proof fn verif_derive_{fnname}{generics}({', '.join(params)})"]
+    if where_txt:
+        out.append("    " + where_txt)
+    hyps = [c for c in fn_clauses if c.kind in ("requires", "ensures")]
+    if hyps:
+        out.append("    requires")
+        for c in hyps:
+            c2 = Clause(c.kind, "", _subst_self(c.text, selfmode))
+            out += _clause_lines(c2)
+    out.append("    ensures")
+    for c in derives:
+        c2 = Clause("ensures", c.label, _subst_self(c.text, selfmode))
+        out += _clause_lines(c2)
+    out.append("{")
+    out += [e[3] for e in ex.derive_proof]
+    out.append("}")
+    return "\n".join(out)
 
 
 def _render_fn_clauses(clauses):
@@ -1925,7 +2022,7 @@ def main(argv):
     import argparse
     ap = argparse.ArgumentParser()
     ap.add_argument("template")
-    ap.add_argument("--repo", default="/repo")
+    ap.add_argument("--repo", default=os.environ.get("VERIF_REPO", "/repo"))
     ap.add_argument("-o", "--out", default="-")
     ap.add_argument("--report", default=None)
     args = ap.parse_args(argv)
